@@ -84,7 +84,8 @@ def class_beh(js, c, obj=None):
                 cs[name] = "reject"
             except js.exceptions.UnknownType:
                 cs[name] = "undefined"
-    return {"types": types, "kw": sorted(kw), "idkw": id_probe(js, c, True), "type_keyword": tv, "cs": cs}
+    flavour = {"divisibleBy": not v.is_valid(3, {"divisibleBy": 2}), "const": not v.is_valid(1, {"const": 2})}
+    return {"types": types, "kw": sorted(kw), "idkw": id_probe(js, c, True), "type_keyword": tv, "cs": cs, "flavour": flavour}
 
 
 def fc_beh(fc):
@@ -129,7 +130,8 @@ def replay_one(ex):
                             if value:
                                 yield js.ValidationError("x-new says no")
                         extra["x-new"] = xnew
-                    cls.append(V.extend(cls[o["c"] - 1], validators=extra, type_checker=tcs[o["t"] - 1] if o["t"] else None))
+                    kwargs = {"validators": extra} if extra else {}        # nothing to override: the argument is omitted
+                    cls.append(V.extend(cls[o["c"] - 1], type_checker=tcs[o["t"] - 1] if o["t"] else None, **kwargs))
                 elif o["op"] == "create":
                     base = cls[o["c"] - 1]
                     meta = dict(base.META_SCHEMA)
@@ -162,7 +164,8 @@ def replay_one(ex):
                 want = beh["cls"][i]
                 if got["types"] != want["types"] or got["kw"] != sorted(want["kw"]) or got["idkw"] != want["idkw"] or \
                         any(got["type_keyword"][n] != want["types"][n] for n in ("integer", "newtype")) or \
-                        any(want["cs"][n] != "skip" and got["cs"][n] != want["cs"][n] for n in ("title", "minlen")):
+                        any(want["cs"][n] != "skip" and got["cs"][n] != want["cs"][n] for n in ("title", "minlen")) or \
+                        got["flavour"] != want["flavour"]:
                     probs.append((step, "class", i + 1, got, want))
             for i, v in enumerate(vals):
                 got = class_beh(js, type(v), obj=v)
@@ -172,7 +175,8 @@ def replay_one(ex):
                     got["knows"] = True
                 except js.exceptions.RefResolutionError:
                     got["knows"] = False
-                if got["types"] != want["types"] or got["kw"] != sorted(want["kw"]) or got["knows"] != want["knows"]:
+                if got["types"] != want["types"] or got["kw"] != sorted(want["kw"]) or got["knows"] != want["knows"] or \
+                        got["flavour"] != want["flavour"]:
                     probs.append((step, "validator_object", i + 1, got, want))
             for i, f in enumerate(fcs):
                 want = {n: h["fcs"][i].get(n, "absent") for n in FMT_NAMES}
